@@ -18,7 +18,7 @@ T = 16
 
 def scenario(s2, d1, d2, da, db):
     h_sim.PIN.clear()
-    h_sim.PIN.update(alg=PIN.get('alg', 'batch1'), delays=PIN.get('delays', []))
+    h_sim.PIN.update(alg=PIN.get('alg', 'batch1'), delays=PIN.get('delays', []), s1=PIN.get('s1', 0))
     return h_sim.prof_two((s2, d1, d2, da, db, PIN.get('g2', 1), 2, 5))
 
 
@@ -137,6 +137,9 @@ def shards(tier, prop):
         for tm in timings:
             out.append({'fn': 'pause', 'pin': {'alg': alg, 'timing': list(tm)}, 'cond_timeout': 200 if tier == 'quick' else 900})
     out.append({'fn': 'pause', 'pin': {'alg': 'batch1', 'timing': [1, 2, 1], 'delays': [1, 0, 2]}, 'cond_timeout': 200})
+    # the first observation starts later than the earliest pause points (nothing has happened yet at the pause)
+    for alg in ('batch1', 'queue'):
+        out.append({'fn': 'pause', 'pin': {'alg': alg, 'timing': [1, 2, 1], 's1': 2}, 'cond_timeout': 200 if tier == 'quick' else 900})
     out.append({'fn': 'refuse', 'cond_timeout': 100})
     out.append({'fn': 'pause', 'pin': {'alg': 'queue', 'timing': [1, 2, 1]}, 'cond_timeout': 30, 'twin': True})
     return out
